@@ -65,7 +65,7 @@ Proof. vm_compute. repeat split. Qed.
     allocation that succeeds.  The models are the *repaired* code (fix
     patches 08, 09, 10, 15, 33, 50, 62, 70-79); [repaired = false] selects the
     pinned tree's logic where a [_refuted] witness is stated. *)
-From KdV Require Import Parse.Bounded Parse.NotesModel Parse.ElfModel Parse.FlatInit Parse.SizesModel
+From KdV Require Import Parse.Bounded Parse.NotesModel Parse.PElfModel Parse.FlatInit Parse.SizesModel
      Parse.ProbeModel Parse.BoundedProofs Parse.NotesProofs Parse.ElfProofs Parse.FlatInitProofs
      Parse.SizesProofs Parse.ProbeProofs.
 
